@@ -3797,6 +3797,23 @@ func newStorageCapabilityControllerSetTargetFunction(
 			addressValue,
 			newTargetPathValue,
 		})
+
+		// Write the controller with its new target path back to the account's
+		// capability ID to controller storage map.
+		// Only changing the target path of the controller value in place
+		// does not mark the slab which contains the controller as changed,
+		// and the new target path would not be persisted.
+		controller.TargetPath = newTargetPathValue
+
+		existed := context.WriteStored(
+			address,
+			common.StorageDomainCapabilityController,
+			interpreter.Uint64StorageMapKey(capabilityID),
+			controller,
+		)
+		if !existed {
+			panic(errors.NewUnreachableError())
+		}
 	}
 }
 
